@@ -346,6 +346,22 @@ def analyse(unit, res):
     return res
 
 
+def vacuity_check(unit):
+    """DESIGN.md 8: with `false` appended to the postconditions of every contracted function, EVERY such function must
+    fail exactly that clause; one that proves `false` has contradictory preconditions or assumptions."""
+    res = vrun.run_verus(unit, vacuity=True)
+    hard = [d for d in res["diags"] if not d["semantic"]]
+    if hard:
+        raise Inconclusive("vacuity twin of unit %s does not compile: %s" % (unit, hard[0]["message"][:120]))
+    want = []
+    for it in res["map"]["items"]:
+        if it["kind"] == "fn" and any(c["id"] == "vacuity.false" for c in it.get("clauses", [])):
+            want.append(it["path"])
+    got = set(d["fn"] for d in res["diags"] if d.get("clause") == "vacuity.false")
+    vacuous = [f for f in want if f not in got]
+    return {"unit": unit, "functions_checked": len(want), "functions_refuting_false": len(want) - len(vacuous), "vacuous": vacuous, "wall_s": round(res["wall_s"], 1)}
+
+
 # ---------------------------------------------------------------------------------------------
 def load_known():
     p = os.path.join(VERIF, "known_findings.json")
